@@ -57,7 +57,7 @@ CLAIMED = {
     "C24": ("CLONE (float~double and complex<float>~complex<double> wrapper specialisations issue identical LAPACK call traces modulo prefix/type/local names), REACHDEF (lwork and workspace derived from the -1 query to the same routine), OPTCHAR (option characters valid for the real/complex flavour reached, decided per caller instantiation), DEFTOL (sibling default-tolerance agreement, no fixed-precision constant in element-type templates)",
             "Static decision of the clause the property names as the risk, 'LAPACK argument conversion and workspace sizing is separate code per type' (DESIGN section 3, C24): per wrapper family the specialisations agree argument-for-argument, "
             "and every real call's lwork/workspace come from the preceding workspace query. Everything in Factor*.cpp / Eigen.cpp (rank logic, residuals, orderings) is numerical and NOT decided."),
-    "C07": ("COMPLETE (virtual-set completeness per declared (mp,mv,ma)), AGREE (bodies selecting the kinematic input arrays == bodies selecting the force output arrays), LEVEL (count/segment/callee of one level per matrix builder), FRAME adjacency in the constraint equations",
+    "C07": ("COMPLETE (virtual-set completeness per declared (mp,mv,ma)), AGREE (bodies selecting the kinematic input arrays == bodies selecting the force output arrays), LEVEL (count/segment/callee of one level per matrix builder), OPERATOR (multiplyByPVA: per level, error view and bias view over the same rows, bias subtracted on every path), FRAME adjacency in the constraint equations",
             "Static decision of the structural clauses of C07 (DESIGN section 3): every built-in constraint implements the whole error/derivative/force virtual set of each level it declares equations for; "
             "at each level the velocity-level error routine takes kinematics of exactly the constrained bodies/mobilizers to which the matching addIn...Forces routine applies multiplier forces (necessary for G' = transpose of G); "
             "each of the seven constraint-matrix builders uses the row count, row segment and per-constraint routine of one level; frame adjacency of every parseable rotation/transform product in the constraint equations. "
@@ -70,7 +70,7 @@ CLAIMED = {
             "Static decision of the structural clauses of C09 (DESIGN section 3): projectQ / projectU report success only on paths where, after the last change of the state, the error norm was recomputed and tested against opts.getRequiredAccuracy(), the constraint-error norm being the documented weighted RMS / infinity norm; "
             "quaternions are normalised after every change of q before success; prescribed coordinates are not touched (updates come from the free-variable solution through unpackFreeQ/U, which address only the free index list; quaternion normalisation skips non-Free mobilizers); "
             "the System-level entry points hand the caller's accuracy down unchanged and run prescribe/realize/project in order. Convergence, the minimum-norm property of the least-squares step and the `already satisfied` entry test are numerical and NOT decided."),
-    "C10": ("PARTITION (switch exhaustiveness + case->list table per level), LOCKMAP (lock level / Motion -> method table, precedence), FILL (pool, offset, locked array and Motion routine per level), APPLY (pool->state family agreement, coverage of both lists), LOCK (writers through the Instance-stage variable), FORWARD (Custom motion forwarders)",
+    "C10": ("PARTITION (switch exhaustiveness + case->list table per level), LOCKMAP (lock level / Motion -> method table, precedence), FILL (pool, offset, locked array and Motion routine per level), APPLY (pool->state family agreement, coverage of both lists), LOCK (writers through the Instance-stage variable), FORWARD (Custom motion forwarders), VARSTAGE (invalidation stage of every state variable a Motion routine reads <= stage that fills its pool)",
             "Static decision of the bookkeeping clauses of C10 (DESIGN section 3): the chain of tables that makes a prescribed or locked coordinate take its prescribed value -- lock()/lockAt()/unlock()/Motion::disable() write the Instance-stage variable; "
             "realizeInstance maps lock level / Motion to (qMethod,uMethod,udotMethod) as documented and partitions every mobilizer's q, u, udot indices into the presX / zeroX / freeX list of the same level with the right pool offset; "
             "realizeTime/Position/Dynamics fill the pool of their level from the lock values or the Motion routine of that level; prescribeQ/U copy every pool entry to the state entry of the same list and zero the zero lists; Custom motions forward each routine to its namesake. "
